@@ -209,6 +209,11 @@ impl<M: Math, A: MassMatrixAdaptStrategy<M>> AdaptStrategy<M> for GlobalStrategy
                 let position = math.box_array(state.point().position());
                 self.step_size
                     .init(math, options, hamiltonian, &position, rng)?;
+                // The search leaves its own trial step in place. If this is also the last
+                // warmup draw, sampling still has to start from the adapted step size.
+                if draw == self.num_tune - 1 {
+                    self.step_size.update_stepsize(rng, hamiltonian, true);
+                }
             } else {
                 // If the final step size window is empty this is the last warmup draw:
                 // sampling has to start from the averaged step size.
